@@ -20,7 +20,8 @@
    document is then compared by the correspondence and the oracle only. *)
 From FrameModel Require Import Num.QcTac Geometry.Rect Alloc.Alloc Yaml.Tree Yaml.NetlistRead Yaml.NetlistWrite
   Yaml.Netgen Yaml.NetgenFacts Yaml.NetgenHTree Yaml.DieAlloc Yaml.DieAllocFacts Yaml.Producers
-  Yaml.ProducersFacts Yaml.ProducersPartial Yaml.ProducersRT Yaml.ProducersFloat.
+  Yaml.ProducersFacts Yaml.ProducersPartial Yaml.ProducersRT Yaml.ProducersFloat Yaml.ProducersAlloc
+  Yaml.NetgenGridCenters.
 Open Scope Qc_scope.
 
 (* ---------------- the die ---------------- *)
@@ -110,6 +111,15 @@ Theorem C19_netgen_grid : forall sqrt_o epsdef rows cols area,
 Proof. exact netgen_grid. Qed.
 Print Assumptions C19_netgen_grid.
 
+(* grid with --add-centers: every module also gets the centre gen_modules computed for it
+   ((0.5 + c) * w / cols + noise, (0.5 + r) * h / rows + noise), whatever random.gauss returned *)
+Theorem C19_netgen_grid_centers : forall sqrt_o epsdef rows cols area w h noise,
+  (1 <= cols)%nat -> Qcltb 0 area = true ->
+  read_netlist sqrt_o epsdef (gen_grid rows cols area (Some (w, h, noise))) =
+  Ok (loaded sqrt_o epsdef area (grid_entries_c w h rows cols noise) (grid_wedges rows cols)).
+Proof. exact netgen_grid_centers. Qed.
+Print Assumptions C19_netgen_grid_centers.
+
 Theorem C19_netgen_htree : forall sqrt_o epsdef l area,
   (1 <= l)%nat -> Qcltb 0 area = true ->
   exists doc, gen_htree l area = Some doc /\
@@ -148,6 +158,18 @@ Theorem C19_solution_netlist_other : forall result m,
   lookup (m_name m) result = None -> sol_entry result m = (m_name m, YMap (write_module m)).
 Proof. exact sol_entry_other. Qed.
 Print Assumptions C19_solution_netlist_other.
+
+(* ---------------- rect_io.get_netlist(None, allocation) (repaired) ---------------- *)
+(* for every allocation the constructor accepts, the netlist built from its cells is accepted and
+   has one soft module per module of the allocation, in order of first appearance, with the area
+   and the centre the Allocation computes (area_of, center_of), and no net *)
+Theorem C19_alloc_netlist_rt : forall sqrt_o e aeps cells,
+  accepted aeps cells ->
+  read_netlist sqrt_o e (alloc_netlist_doc cells) =
+  Ok (mkNetlist (map (alloc_module cells) (module_names cells)) [] []
+                (epsilon_after sqrt_o e (map (alloc_module cells) (module_names cells)))).
+Proof. exact alloc_netlist_rt. Qed.
+Print Assumptions C19_alloc_netlist_rt.
 
 (* ---------------- legalfloor Model.get_netlist (repaired) ---------------- *)
 (* the document of a model that was built (a module, every module with a rectangle) is the one
